@@ -353,3 +353,48 @@ Section Forced.
     now rewrite Hl4.
   Qed.
 End Forced.
+
+Section Objs.
+  Variable classes : list tclass.
+  Variable run : nat -> list (str * str) -> list (str * value) -> value.
+
+  Lemma fold_objs f
+        (IH : forall w id w' r, eval classes run f w id = (w', r) -> w_objs w' = w_objs w)
+        l wa acc wz rz :
+    fold_left (step_of classes run f) l (wa, acc) = (wz, rz) -> w_objs wz = w_objs wa.
+  Proof.
+    revert wa acc. induction l as [|[k [j|dv]] r IHl]; intros wa acc H.
+    - simpl in H. now injection H as <- _.
+    - cbn [fold_left step_of snd fst] in H. destruct acc as [vs|e].
+      + destruct (eval classes run f wa j) as [wb [v|e]] eqn:Ee; apply IH in Ee; apply IHl in H; congruence.
+      + now apply IHl in H.
+    - cbn [fold_left step_of snd fst] in H. destruct acc as [vs|e]; now apply IHl in H.
+  Qed.
+
+  Lemma eval_keeps_objs f : forall w id w' r, eval classes run f w id = (w', r) -> w_objs w' = w_objs w.
+  Proof.
+    induction f as [|f IHf]; intros w id w' r He.
+    - simpl in He. now injection He as <- _.
+    - cbn [eval] in He. fold (step_of classes run f) in He.
+      destruct (nth_error (w_objs w) id) as [o|]; [|now injection He as <- _].
+      destruct (cls_of classes o) as [tc|]; [|now injection He as <- _].
+      destruct (os_mem (state_of w id)); [now injection He as <- _|].
+      destruct (if persisting (c_data tc) && negb (os_forced (state_of w id)) then _ else None) as [[|v1|v1|l1]|].
+      1-4: now injection He as <- _.
+      destruct (existsb _ _); [now injection He as <- _|].
+      match type of He with (match ?X with _ => _ end) = _ => destruct X as [w4 [ins|e]] eqn:Ef end;
+        apply (fold_objs f IHf) in Ef; injection He as <- _; simpl in *; exact Ef.
+  Qed.
+
+  (* C13: the members of a MultiChain hold ONE object for one computation, so a value computed through
+     one member is in memory for every other member: requesting it there runs nothing *)
+  Theorem shared_object_memory f f' w id o tc w' v :
+    nth_error (w_objs w) id = Some o -> cls_of classes o = Some tc -> id < List.length (w_states w) ->
+    eval classes run f w id = (w', inl v) ->
+    eval classes run (S f') w' id = (w', inl v).
+  Proof.
+    intros Ho Hc Hl He. apply eval_memory_hit with (o := o) (tc := tc); auto.
+    - rewrite (eval_keeps_objs _ _ _ _ _ He). exact Ho.
+    - eapply eval_success_in_memory; eauto.
+  Qed.
+End Objs.
